@@ -33,9 +33,12 @@ def main():
     rc, o = sh('/venv/bin/python -m pytest -q -p no:cacheprovider 2>&1 | tail -1', cwd=wt)
     out['tests_with_change'] = o.strip()
     rc1, o1 = sh('/venv/bin/python demo.py', cwd=wt)
-    sh('git stash', cwd=wt)
+    # (git stash is shared between worktrees of one repository: use apply -R / apply instead)
+    sh('git diff -- armulator > .seed_eval.diff', cwd=wt)
+    sh('git apply -R .seed_eval.diff', cwd=wt)
     rc0, o0 = sh('/venv/bin/python demo.py', cwd=wt)
-    sh('git stash pop', cwd=wt)
+    sh('git apply .seed_eval.diff', cwd=wt)
+    os.remove(os.path.join(wt, '.seed_eval.diff'))
     out['demo_with_change'] = (rc1, o1.strip()[-200:])
     out['demo_without_change'] = (rc0, o0.strip()[-200:])
     confirmed = ('686 passed' in o) and rc1 != 0 and rc0 == 0
